@@ -285,6 +285,43 @@ func (c *Ctx) ruleNoSyntacticType() {
 			}
 		})
 	}
+	// ... nor decides on the syntactic class of a use-site type expression: `var x (p.T)`, `var x p.T` and
+	// `var x A` (A an alias) denote the same type, a type switch on the expression tells them apart
+	nTA := 0
+	for _, fn := range P.ModFuncs {
+		pp := strings.TrimPrefix(funcPkgPath(fn), modulePath+"/src/")
+		if pp != "immutable" && pp != "constructor" && pp != "testonly" && pp != "packageonly" {
+			continue
+		}
+		allInstrs(fn, func(b *ssa.BasicBlock, ins ssa.Instruction) {
+			ta, ok := ins.(*ssa.TypeAssert)
+			if !ok || typeStr(ta.X.Type()) != "go/ast.Expr" {
+				return
+			}
+			nTA++
+			switch typeStr(ta.AssertedType) {
+			case "*go/ast.FuncType", "*go/ast.ArrayType", "*go/ast.MapType", "*go/ast.ChanType", "*go/ast.StructType", "*go/ast.InterfaceType", "*go/ast.Ellipsis":
+				return // these never denote a defined type (nor an alias or a pointer to one): telling them apart loses nothing
+			}
+			which := ""
+			if P.RootsAnyDeep(ta.X, func(r ssa.Value) bool {
+				for _, tf := range [][2]string{{"go/ast.ValueSpec", "Type"}, {"go/ast.CompositeLit", "Type"}, {"go/ast.Field", "Type"}, {"go/ast.ArrayType", "Elt"}, {"go/ast.MapType", "Key"}, {"go/ast.MapType", "Value"}} {
+					if base := fieldLoad(r, tf[0], tf[1]); base != nil {
+						if tf[0] == "go/ast.Field" && strings.Contains(P.DescDeep(base), "go/ast.FuncDecl.Recv") {
+							continue
+						}
+						which = tf[0] + "." + tf[1]
+						return true
+					}
+				}
+				return false
+			}) {
+				bad++
+				c.fail("NO-SYNTACTIC-TYPE", FuncName(fn)+"#type-switch", P.Pos(ta.Pos()), "a checker branches on the syntactic class ("+typeStr(ta.AssertedType)+") of a use-site type expression ("+which+"): parenthesised, aliased and qualified spellings of one type are treated differently")
+			}
+		})
+	}
+	c.floor("assertions on ast.Expr operands in the checkers", nTA, 4)
 	if bad == 0 {
 		c.ok("NO-SYNTACTIC-TYPE", "checkers", "", "no checker reads the spelling of a use-site type expression")
 	}
